@@ -35,32 +35,54 @@ def match_brace(s, i, open_='{', close='}'):
             if d == 0: return j + 1
     raise ValueError('unbalanced')
 
+FRAG = {'ident': r'\w+', 'literal': r'[\w.]+', 'tt': r'[^,;]+?', 'expr': r'[^,;]+?', 'ty': r'[^,;]+?', 'path': r'[\w:]+'}
+
 def parse_macros(text):
-    """macro_rules! NAME { (PARAMS) => { BODY }; }  ->  {NAME: ([param names], body)} (single-arm macros only)"""
+    """macro_rules! NAME { (PATTERN) => { BODY }; … }  ->  {NAME: [(compiled pattern, body), …]} (one entry per arm).
+    A pattern is a flat sequence of `$x:frag` metavariables and literal tokens (`,` `:` `=>` …); repetitions are not
+    understood (such an arm never matches)."""
     out = {}
     for m in re.finditer(r'macro_rules!\s+(\w+)\s*\{', text):
         end = match_brace(text, m.end() - 1)
         inner = text[m.end():end - 1]
-        am = re.match(r'\s*\(([^)]*)\)\s*=>\s*\{', inner)
-        if not am: continue
-        bend = match_brace(inner, am.end() - 1)
-        rest = inner[bend:].strip().strip(';').strip()
-        if rest: continue                      # more than one arm: not understood
-        params = re.findall(r'\$(\w+)\s*:\s*\w+', am.group(1))
-        out[m.group(1)] = (params, inner[am.end():bend - 1])
+        arms = []; i = 0
+        while True:
+            am = re.compile(r'\s*\(([^)]*)\)\s*=>\s*\{').match(inner, i)
+            if not am: break
+            bend = match_brace(inner, am.end() - 1)
+            pat = am.group(1)
+            rx = ''; k = 0
+            for mv in re.finditer(r'\$(\w+)\s*:\s*(\w+)', pat):
+                lit = pat[k:mv.start()]
+                rx += ''.join(r'\s*' + re.escape(tok) for tok in re.findall(r'\S', lit))
+                rx += r'\s*(?P<%s>%s)' % (mv.group(1), FRAG.get(mv.group(2), r'[^,;]+?'))
+                k = mv.end()
+            rx += ''.join(r'\s*' + re.escape(tok) for tok in re.findall(r'\S', pat[k:])) + r'\s*,?\s*'
+            try: arms.append((re.compile(rx), inner[am.end():bend - 1]))
+            except re.error: pass
+            i = bend
+            while i < len(inner) and (inner[i].isspace() or inner[i] == ';'): i += 1
+        if arms and not inner[i:].strip(): out[m.group(1)] = arms
     return out
 
 def expand(text, macros):
+    """textual expansion of `NAME!(…);` invocations, repeated until nothing changes (a macro may forward to another); the
+    first arm whose pattern matches the argument text is taken"""
     def rep(m):
-        name = m.group(1)
+        name = m.group(1).split('::')[-1]
         if name not in macros: return m.group(0)
-        params, body = macros[name]
-        args = [a.strip() for a in m.group(2).split(',')]
-        if len(args) != len(params): return m.group(0)
-        for p, a in sorted(zip(params, args), key=lambda x: -len(x[0])):
-            body = re.sub(r'\$' + p + r'\b', a, body)
-        return body
-    return re.sub(r'\b(\w+)!\s*\(([^()]*)\)\s*;', rep, text)
+        for rx, body in macros[name]:
+            am = rx.fullmatch(m.group(2))
+            if am:
+                for p, a in sorted(am.groupdict().items(), key=lambda x: -len(x[0])):
+                    body = re.sub(r'\$' + p + r'\b', a.strip(), body)
+                return body
+        return m.group(0)
+    for _ in range(6):
+        new = re.sub(r'\b((?:\w+::)*\w+)!\s*\(([^()]*)\)\s*;', rep, text)
+        if new == text: break
+        text = new
+    return text
 
 def functions(text):
     """{name: (signature, body)} of every `fn` in text"""
@@ -230,6 +252,7 @@ def enc_parts(name, fns):
         meth = re.sub(r'\s', '', m.group(1))
         ae = match_brace(rdata, m.end() - 1, '(', ')')
         arg = rdata[m.end():ae - 1]
+        closure_loop = False
         fm = re.findall(r'\b%s\s*\.\s*(\w+)' % x, arg)
         fld = fm[0] if fm else None
         if fld is None and re.fullmatch(r'\s*\d+\s*', arg): fld = '#' + arg.strip()
@@ -241,10 +264,18 @@ def enc_parts(name, fns):
             # a loop variable / local derived from a field: take the nearest enclosing `for v in x.field` / `let v = … x.field`
             vm = re.findall(r'\b(\w+)\b', arg)
             for v in vm:
-                lm = re.search(r'(?:for\s+%s\s+in|let\s+%s\s*=)[^;{]*\b%s\s*\.\s*(\w+)' % (v, v, x), rdata[:m.start()])
+                lm = re.search(r'(?:for\s+%s\s+in|let\s+%s\s*=)[^;{]*?\b%s\s*\.\s*(\w+)' % (v, v, x), rdata[:m.start()])
                 if lm: fld = lm.group(1); break
+                # closure parameter of an iterator adaptor: `x.field.iter().try_for_each(|v| self.w(v))`
+                st = rdata[max(rdata.rfind(';', 0, m.start()), 0):m.start()]
+                if re.search(r'\|[^|]*\b%s\b[^|]*\|' % v, st):
+                    cm = re.search(r'\b%s\s*\.\s*(\w+)' % x, st)
+                    if cm:
+                        fld = cm.group(1)
+                        if re.search(r'\b(for_each|try_for_each|map|try_fold|fold)\b', st): closure_loop = True
+                        break
         if fld is None: raise ValueError('writer argument not understood: %s(%s)' % (meth, arg.strip()[:40]))
-        mark = ctx_marker(rdata, m.start())
+        mark = ctx_marker(rdata, m.start()) or ('*' if closure_loop else '')
         if meth not in PRIM_ENC and meth in fns:
             # private helper writer: inline the single primitive it calls
             inner = [re.sub(r'\s', '', mm.group(1)) for mm in re.finditer(r'self\s*\.\s*((?:bytes\s*\.\s*)?\w+)\s*\(', fns[meth][1])]
